@@ -239,7 +239,7 @@ func TestBoundedC16(t *testing.T) {
 	if b, err := strconv.Atoi(os.Getenv("C16_BOUND")); err == nil && b > 0 {
 		bound = b
 	}
-	tokens := []string{"a.b", "c.d", "@type", "/", "|", "(", ")", "^", " ", "x", ".", "*", "\"", ","}
+	tokens := []string{"a.b", "c.d", "@type", "/", "|", "(", ")", "^", " ", "x", ".", "*", "\"", ",", "\t"}
 	sum := c16Summary{Bound: bound, Tokens: tokens, Differences: map[string]int{}, Examples: map[string][]string{}}
 	var rec func(prefix string, depth int)
 	check := func(s string) {
